@@ -3,6 +3,3 @@ package main
 // temporary stubs, replaced as the engines are implemented
 
 func ruleLenObligations(c *Ctx, r *Report) {}
-func ruleWPub(c *Ctx, r *Report)           {}
-
-func rulePanicCensus(c *Ctx, r *Report, roots interface{}, which string) {}
